@@ -375,7 +375,11 @@ def genexec_measure(seed: int, n: int) -> dict:
             except Exception: hand_same = False
         elif hand_same:
             hand_same = ('m2' in tap) == ('loaded' in mo) if 'raw' in tap or v is not None else hand_same
-        q0 = len(queue)
+        if 'raw' not in tap and 'm2' in tap:
+            # the oracle stopped before it read the file back: the file the implementation wrote is still there
+            from maltoolbox.file_utils import load_dict_from_json_file, load_dict_from_yaml_file
+            try: tap['raw'] = (load_dict_from_json_file if fmt == 'json' else load_dict_from_yaml_file)(os.path.join(scratch(), f'model.{fmt}'))
+            except Exception: pass
         bad = third_column(i, spec, ops, fmt, tap, gen[i]['model'], random.Random(seed * 1000003 + i), res, queue, count=False)
         per[i] = {'hand_same': hand_same, 'bad': [b[1] for b in bad], 'oracle': v.fingerprint if v else None}
     for q, kind, what in (check_loads(queue, cases, res, count=False) if queue else []):
